@@ -181,7 +181,7 @@ PROPS["C20"] = Prop(
     "(`_` never binds; once per pattern; := declares in the innermost scope only and cites the earlier position on conflict; "
     "= / op= update the nearest enclosing declaration or report Undefined at the name) over an abstract scope-chain view, for all names, "
     "all chains and all values.",
-    vunits=[V_NAME, V_BINDNEXT, VUnit('expr', 'expr', ['eval::eval_expr'])],
+    vunits=[V_NAME, V_BINDNEXT, VUnit('expr', 'expr', ['eval::eval_expr']), VUnit('scoped', 'scoped', ['eval::eval_stmts', 'eval::eval_stmts_in_new_scope']), VUnit('ctl', 'ctl', ['eval::eval_stmt'])],
     assumptions=[
         "ScopeStack::{declare,get,assign} are under ASSUMED contracts read off src/eval/scope.rs (HashMap + Arc<Mutex> are outside both engines)",
         "std HashSet<String> is replaced by an assumed mathematical-set contract",
